@@ -3,7 +3,8 @@
 E1 over programs x configurations x inputs.  Class hierarchies are generated from a spec the harness owns (1-3
 levels; per level 0-2 fields of 8 shapes: plain / compare=False / init=False / both / kw_only property, optional
 single child, tuple child, union child; the derived level adds fields or overrides the first inherited field with
-any shape, kind changes included; field names chosen so that name order differs from declaration order).  Every
+any shape, kind changes included; field names chosen so that name order differs from declaration order; every 1- and
+2-level hierarchy a second time with underscore-prefixed / capitalised / digit-suffixed field names).  Every
 hierarchy is defined afresh for every first-use order (the generated accessors install themselves on the class
 on first use), instantiated with absent / present / empty / falsy children, and every accessor is compared with
 the field list computed from the spec, for all 2^5 skip-flag combinations x sort_keys.
@@ -25,7 +26,7 @@ from ..core import Rec
 
 PID = "C12"
 RULE = (
-    "hierarchies: all 1-level classes with 0-2 fields over 8 shapes; all 2-level hierarchies base(0-2 fields) x derived(0-1 added "
+    "hierarchies (each 1- and 2-level one under two naming schemes): all 1-level classes with 0-2 fields over 8 shapes; all 2-level hierarchies base(0-2 fields) x derived(0-1 added "
     "field | override of the first inherited field by each shape) [thorough: derived 0-2 added fields]; 3-level chains with one "
     "field per level over 4 (thorough 8) shapes incl. an override at level 3.  per hierarchy: 3 first-use orders x up to 3 instance "
     "variants per class x {get_properties: 32 flag sets x sort_keys, static get_property_fields: 32 flag sets, to_properties_dict, "
@@ -83,6 +84,15 @@ def hierarchies(tier):
     for a, b, c in itertools.product(s3, repeat=3):
         yield [[(NAMES[0][0], a)], [(NAMES[1][0], b)], [(NAMES[2][0], c)]]
         yield [[(NAMES[0][0], a)], [(NAMES[1][0], b)], [(NAMES[0][0], c)]]  # level 3 overrides level 1's field
+
+
+# a second naming scheme: leading underscore ("hidden"-looking), capitalised (sorts before every lower-case name and before
+# the built-in fields), trailing underscore / digit - accessors must not care how a field is spelled
+RENAME = {"m": "_m", "c": "Zc", "x": "_x", "a": "a_", "k": "K9", "b": "_b"}
+
+
+def renamed(h):
+    return [[(RENAME[n], s) for n, s in lv] for lv in h]
 
 
 _counter = itertools.count()
@@ -337,6 +347,9 @@ def run_shard(cfg):
         for order in (ORDERS if len(h) > 1 else ORDERS[:1]):
             rec.count("states")
             run_hierarchy(rec, h, order)
+        if len(h) <= 2:
+            rec.count("states")
+            run_hierarchy(rec, renamed(h), ORDERS[0] if len(h) == 1 else ORDERS[idx % len(ORDERS)])
     for shape in SHAPES:
         for mro_first in ("node", "mixin"):
             for order in ORDERS:
